@@ -247,7 +247,7 @@ pub fn build() -> Property {
         phases: vec![Phase {
             name: "cli_schedules",
             kind: PhaseKind::Gen {
-                cases: (96, 640),
+                cases: (480, 2000),
                 tape_len: 200 + 64 + 2000 + 8 * 4000 + 14000 + 1200,
                 f: Box::new(cli_case),
             },
